@@ -225,6 +225,41 @@ func findFunc(path, recv, name string) *ast.FuncDecl {
 	return nil
 }
 
+// statefulUsesPlain: the same for a plain (receiver-less) function.
+func statefulUsesPlain(path, name string) (globals, forks []string) {
+	f, err := parser.ParseFile(fset, path, nil, 0)
+	if err != nil {
+		fmt.Fprintln(os.Stderr, err)
+		os.Exit(1)
+	}
+	vars := pkgVars(filepath.Dir(path))
+	for _, d := range f.Decls {
+		fd, ok := d.(*ast.FuncDecl)
+		if !ok || fd.Recv != nil || fd.Name.Name != name {
+			continue
+		}
+		seen := map[string]bool{}
+		ast.Inspect(fd.Body, func(n ast.Node) bool {
+			switch x := n.(type) {
+			case *ast.SelectorExpr:
+				if strings.HasPrefix(x.Sel.Name, "IsProposal") || x.Sel.Name == "LocalChainConfig" {
+					forks = append(forks, name+":"+x.Sel.Name)
+				}
+			case *ast.Ident:
+				if vars[x.Name] && !seen[x.Name] {
+					seen[x.Name] = true
+					globals = append(globals, name+":"+x.Name)
+				}
+			}
+			return true
+		})
+		return
+	}
+	fmt.Fprintf(os.Stderr, "c15facts: func %s not found in %s\n", name, path)
+	os.Exit(1)
+	return
+}
+
 const (
 	msgT  = "msg.(*model.ConsensusVerifyMessage)#0"
 	si    = msgT + ".SignInfo"
@@ -311,6 +346,154 @@ func steps(fd *ast.FuncDecl, table map[string]string, effects []string, dump boo
 	return out
 }
 
+// pkgVars: names of the package-level variables declared in the (non-test, non-verif) files of dir.
+func pkgVars(dir string) map[string]bool {
+	out := map[string]bool{}
+	ents, _ := os.ReadDir(dir)
+	for _, e := range ents {
+		n := e.Name()
+		if !strings.HasSuffix(n, ".go") || strings.HasSuffix(n, "_test.go") || strings.HasPrefix(n, "verif_") {
+			continue
+		}
+		f, err := parser.ParseFile(fset, filepath.Join(dir, n), nil, 0)
+		if err != nil {
+			continue
+		}
+		for _, d := range f.Decls {
+			if gd, ok := d.(*ast.GenDecl); ok && gd.Tok == token.VAR {
+				for _, sp := range gd.Specs {
+					for _, id := range sp.(*ast.ValueSpec).Names {
+						out[id.Name] = true
+					}
+				}
+			}
+		}
+	}
+	return out
+}
+
+type pathFn struct{ file, recv, name string }
+
+// statefulUses lists, for the functions on the property's path, (a) every package-level variable of
+// their own package they mention (a cache, pool or scratch buffer added to the path shows up here)
+// and (b) every read of the fork configuration (IsProposalNNN, LocalChainConfig, block height).
+func statefulUses(root string, fns []pathFn) (globals, forks []string) {
+	vars := map[string]map[string]bool{}
+	for _, fn := range fns {
+		path := filepath.Join(root, fn.file)
+		dir := filepath.Dir(path)
+		if vars[dir] == nil {
+			vars[dir] = pkgVars(dir)
+		}
+		fd := findFunc(path, fn.recv, fn.name)
+		params := map[string]bool{}
+		ast.Inspect(fd, func(n ast.Node) bool {
+			switch x := n.(type) {
+			case *ast.AssignStmt:
+				if x.Tok == token.DEFINE {
+					for _, l := range x.Lhs {
+						if id, ok := l.(*ast.Ident); ok {
+							params[id.Name] = true
+						}
+					}
+				}
+			case *ast.Field:
+				for _, id := range x.Names {
+					params[id.Name] = true
+				}
+			}
+			return true
+		})
+		seen := map[string]bool{}
+		ast.Inspect(fd.Body, func(n ast.Node) bool {
+			switch x := n.(type) {
+			case *ast.SelectorExpr:
+				if strings.HasPrefix(x.Sel.Name, "IsProposal") || x.Sel.Name == "LocalChainConfig" ||
+					x.Sel.Name == "GetBlockHeight" || x.Sel.Name == "SetBlockHeight" {
+					forks = append(forks, fn.name+":"+x.Sel.Name)
+				}
+				// only the root of a selector chain can be a package-level variable of this package
+				if id, ok := x.X.(*ast.Ident); ok && vars[dir][id.Name] && !params[id.Name] && !seen[id.Name] {
+					seen[id.Name] = true
+					globals = append(globals, fn.name+":"+id.Name)
+				}
+				return true
+			case *ast.Ident:
+				if vars[dir][x.Name] && !params[x.Name] && !seen[x.Name] {
+					seen[x.Name] = true
+					globals = append(globals, fn.name+":"+x.Name)
+				}
+			}
+			return true
+		})
+	}
+	return
+}
+
+// startRecovers: in round1.Start, the range loop over r.futureMessages calls r.<m>(msg) where <m> is
+// either Update itself (false) or a round1 method that both calls r.Update and contains a deferred recover().
+func startRecovers(piece string) bool {
+	start := findFunc(piece, "round1", "Start")
+	callee := ""
+	ast.Inspect(start.Body, func(n ast.Node) bool {
+		rs, ok := n.(*ast.RangeStmt)
+		if !ok || !strings.Contains(show(rs.X), "futureMessages") {
+			return true
+		}
+		ast.Inspect(rs.Body, func(m ast.Node) bool {
+			if c, ok := m.(*ast.CallExpr); ok {
+				if sel, ok := c.Fun.(*ast.SelectorExpr); ok && show(sel.X) == "r" && len(c.Args) == 1 && callee == "" {
+					callee = sel.Sel.Name
+				}
+			}
+			return true
+		})
+		return false
+	})
+	if callee == "" || callee == "Update" {
+		return false
+	}
+	f, err := parser.ParseFile(fset, piece, nil, 0)
+	if err != nil {
+		return false
+	}
+	for _, d := range f.Decls {
+		fd, ok := d.(*ast.FuncDecl)
+		if !ok || fd.Name.Name != callee || fd.Recv == nil {
+			continue
+		}
+		hasRecover, hasUpdate := false, false
+		ast.Inspect(fd.Body, func(n ast.Node) bool {
+			switch x := n.(type) {
+			case *ast.DeferStmt:
+				ast.Inspect(x, func(m ast.Node) bool {
+					if c, ok := m.(*ast.CallExpr); ok {
+						if id, ok := c.Fun.(*ast.Ident); ok && id.Name == "recover" {
+							hasRecover = true
+						}
+					}
+					return true
+				})
+			case *ast.CallExpr:
+				if sel, ok := x.Fun.(*ast.SelectorExpr); ok && sel.Sel.Name == "Update" {
+					hasUpdate = true
+				}
+			}
+			return true
+		})
+		return hasRecover && hasUpdate
+	}
+	return false
+}
+
+func leanStrs(xs []string) string {
+	var p []string
+	for _, x := range xs {
+		p = append(p, fmt.Sprintf("%q", x))
+	}
+	return "[" + strings.Join(p, ", ") + "]"
+}
+
 func leanList(xs []string) string {
 	var p []string
 	for _, x := range xs {
@@ -362,6 +545,34 @@ func main() {
 	fmt.Printf("def genGroupSignSteps : List GStep := %s\n\n", leanList(gg))
 	fmt.Println("/-- `SignInfo.VerifySign` -/")
 	fmt.Printf("def verifySignSteps : List VStep := %s\n\n", leanList(vs))
+	srcRoot := filepath.Join(dir, "..", "..")
+	globals, forks := statefulUses(srcRoot, []pathFn{
+		{"consensus/logical/round_sign_piece.go", "round1", "Start"},
+		{"consensus/logical/round_sign_piece.go", "round1", "Update"},
+		{"consensus/logical/round_sign_piece.go", "groupSignGenerator", "AddWitnessSign"},
+		{"consensus/logical/round_sign_piece.go", "groupSignGenerator", "addWitnessForce"},
+		{"consensus/logical/round_sign_piece.go", "groupSignGenerator", "genGroupSign"},
+		{"consensus/logical/round_sign_finalizer.go", "round2", "Start"},
+		{"consensus/logical/round_sign_finalizer.go", "round2", "checkSignature"},
+		{"consensus/logical/party.go", "baseParty", "Update"},
+		{"consensus/logical/party.go", "baseParty", "StoreMessage"},
+		{"consensus/logical/processor_party.go", "Processor", "OnMessageVerify"},
+		{"consensus/logical/processor_party.go", "Processor", "loadOrNewSignParty"},
+		{"consensus/logical/processor_party.go", "Processor", "waitUntilDone"},
+		{"consensus/model/message.go", "SignInfo", "VerifySign"},
+	})
+	gsig := filepath.Join(srcRoot, "consensus", "groupsig", "sig.go")
+	for _, name := range []string{"Sign", "VerifySig", "RecoverGroupSignature", "recoverSignature", "getRandomKSignInfo", "DeserializeSign"} {
+		g2, f2 := statefulUsesPlain(gsig, name)
+		globals = append(globals, g2...)
+		forks = append(forks, f2...)
+	}
+	fmt.Println("/-- package-level variables of their own package mentioned by the functions on the path (`func:var`) -/")
+	fmt.Printf("def pathGlobals : List String := %s\n\n", leanStrs(globals))
+	fmt.Println("/-- reads of the fork configuration on the path -/")
+	fmt.Printf("def pathForkReads : List String := %s\n\n", leanStrs(forks))
+	fmt.Println("/-- the loop of `round1.Start` hands each stored message to a method that calls `Update` under its own `recover` -/")
+	fmt.Printf("def startRecovers : Bool := %v\n\n", startRecovers(piece))
 	fmt.Println("/-- `round1.Update` compares `si.GetDataHash()` with `bh.Hash` before the share is counted. -/")
 	fmt.Printf("def bindsHash : Bool := %v\n\n", binds)
 	fmt.Println("end Rangers.Generated.C15Facts")
